@@ -224,7 +224,7 @@ func trueFactsOfReturn(ret *ssa.Return) (vals []ssa.Value, mayBeTrue bool) {
 			return nil, false
 		}
 		addDom(ret.Block())
-		return facts, true
+		return expandFacts(facts), true
 	}
 	if ph, ok := v.(*ssa.Phi); ok {
 		// a && b && c: edges are false constants except the last operand
@@ -245,11 +245,95 @@ func trueFactsOfReturn(ret *ssa.Return) (vals []ssa.Value, mayBeTrue bool) {
 			}
 		}
 		addDom(ret.Block())
-		return facts, any
+		return expandFacts(facts), any
 	}
 	facts = append(facts, v)
 	addDom(ret.Block())
-	return facts, true
+	return expandFacts(facts), true
+}
+
+// expandFacts: a condition materialised as `a && b` is a phi [false, …, X]; when it is
+// known true, X is true and so is everything that had to hold to evaluate X.
+func expandFacts(facts []ssa.Value) []ssa.Value {
+	seen := map[ssa.Value]bool{}
+	var out []ssa.Value
+	var add func(v ssa.Value, depth int)
+	addDomOf := func(b *ssa.BasicBlock, depth int) {
+		for d := b; d != nil && d.Idom() != nil; d = d.Idom() {
+			idom := d.Idom()
+			if ifi, ok := idom.Instrs[len(idom.Instrs)-1].(*ssa.If); ok {
+				if idom.Succs[0].Dominates(b) && len(idom.Succs[0].Preds) == 1 {
+					add(ifi.Cond, depth+1)
+				}
+				if idom.Succs[1].Dominates(b) && len(idom.Succs[1].Preds) == 1 {
+					add(negFact{ifi.Cond}, depth+1)
+				}
+			}
+		}
+	}
+	add = func(v ssa.Value, depth int) {
+		if depth > 12 {
+			return
+		}
+		if nf, ok := v.(negFact); ok {
+			out = append(out, nf)
+			// !(a || b) ⇒ !a, !b : an or-phi [true, …, X] known false
+			if ph, ok := nf.Value.(*ssa.Phi); ok {
+				allTrueOrOne := true
+				var rest []int
+				for i, e := range ph.Edges {
+					if k, ok := e.(*ssa.Const); ok && k.Value != nil && k.Value.Kind() == constant.Bool && constant.BoolVal(k.Value) {
+						continue
+					}
+					rest = append(rest, i)
+				}
+				if len(rest) == 1 && len(ph.Edges) > 1 && allTrueOrOne {
+					add(negFact{ph.Edges[rest[0]]}, depth+1)
+					addDomOf(ph.Block().Preds[rest[0]], depth)
+				}
+			}
+			if u, ok := nf.Value.(*ssa.UnOp); ok && u.Op == token.NOT {
+				add(u.X, depth+1)
+			}
+			return
+		}
+		if seen[v] {
+			return
+		}
+		seen[v] = true
+		out = append(out, v)
+		switch x := v.(type) {
+		case *ssa.Phi:
+			var rest []int
+			for i, e := range x.Edges {
+				if k, ok := e.(*ssa.Const); ok && k.Value != nil && k.Value.Kind() == constant.Bool && !constant.BoolVal(k.Value) {
+					continue
+				}
+				rest = append(rest, i)
+			}
+			if len(rest) == 1 && len(x.Edges) > 1 {
+				i := rest[0]
+				add(x.Edges[i], depth+1)
+				pred := x.Block().Preds[i]
+				addDomOf(pred, depth)
+				if ifi, ok := pred.Instrs[len(pred.Instrs)-1].(*ssa.If); ok && len(pred.Succs) == 2 {
+					if pred.Succs[0] == x.Block() && pred.Succs[1] != x.Block() {
+						add(ifi.Cond, depth+1)
+					} else if pred.Succs[1] == x.Block() && pred.Succs[0] != x.Block() {
+						add(negFact{ifi.Cond}, depth+1)
+					}
+				}
+			}
+		case *ssa.UnOp:
+			if x.Op == token.NOT {
+				add(negFact{x.X}, depth+1)
+			}
+		}
+	}
+	for _, f := range facts {
+		add(f, 0)
+	}
+	return out
 }
 
 // flattenFact expands `!x` is NOT expanded; calls to own bool helpers are inlined one level.
